@@ -66,7 +66,7 @@ def graphs(tier, rng):
     out += [[[1], [1]], [[1], [2], [1]], [[1], [2], [3], [1]], [[1, 2], [2], [1]], [[1], [0]]]
     per4 = [options(i, 4, False) for i in range(4)]
     all4 = [list(c) for c in itertools.product(*per4)]
-    out += rng.sample(all4, 150 if tier == "quick" else 3000)
+    out += rng.sample(all4, min(len(all4), 150 if tier == "quick" else 3000))
     # selective imports in the main module
     res = []
     for g in out:
